@@ -91,8 +91,11 @@ type gObs struct {
 }
 
 // garbleOnce runs Garble, Eval and Compute once and reports findings.
+var c01KeyBuf = make([]byte, 32)
+
 func garbleOnce(res *Result, c *circuit.Circuit, gc *gCase, rng *rand.Rand, keyLen int) *gObs {
-	key := make([]byte, keyLen)
+	// one key buffer serves all garblings (Garble must not retain the caller's slice)
+	key := c01KeyBuf[:keyLen]
 	rng.Read(key)
 	garbled, err := c.Garble(rng, key)
 	if err != nil {
@@ -233,7 +236,7 @@ func c01Main(args []string) error {
 			res := &Result{Case: idx}
 			c := mkCircuit(gc.Nin, gc.Gates)
 			for r := 0; r < reps && len(res.Viol) == 0; r++ {
-				obs := garbleOnce(res, c, &gc, rng, keyLens[(idx+r)%3])
+				obs := garbleOnce(res, c, &gc, rng, keyLens[(idx+r/2)%3]) // two garblings in a row with one key length
 				if obs != nil {
 					for _, t := range obs.tuple {
 						tuples[t] = true
